@@ -26,6 +26,7 @@ import (
 	"strings"
 	"sync"
 	"sync/atomic"
+	"time"
 
 	"github.com/samber/ro"
 )
@@ -36,6 +37,7 @@ func init() {
 	registerKind("sharec", genShareConc, "sharec", runShareConcCase)
 	registerKind("connc", genConnConc, "connc", runConnConcCase)
 	registerKind("sharex", nil, "sharex", runShareScenario)
+	registerKind("sharet", genShareTerm, "sharet", runShareCase)
 }
 
 // ---------- instrumented source ----------
@@ -148,6 +150,18 @@ func (p *upSource) counters() (int, int) {
 type subRec struct {
 	mu    sync.Mutex
 	trace []string
+	// kind=sharet: run once, from inside the terminal callback of this subscriber
+	onTerm func()
+}
+
+func (r *subRec) terminal() {
+	r.mu.Lock()
+	f := r.onTerm
+	r.onTerm = nil
+	r.mu.Unlock()
+	if f != nil {
+		f()
+	}
 }
 
 func (r *subRec) add(s string) {
@@ -179,8 +193,8 @@ func renderShareErr(err error) string {
 func bareObserver(r *subRec) ro.Observer[int] {
 	return ro.NewObserverWithContext(
 		func(ctx context.Context, v int) { r.add("N" + strconv.Itoa(v)) },
-		func(ctx context.Context, err error) { r.add("E" + renderShareErr(err)) },
-		func(ctx context.Context) { r.add("C") },
+		func(ctx context.Context, err error) { r.add("E" + renderShareErr(err)); r.terminal() },
+		func(ctx context.Context) { r.add("C"); r.terminal() },
 	)
 }
 
@@ -247,6 +261,7 @@ type shareEvent struct {
 	kind  byte // S U N E C K D
 	arg   int
 	inner []shareEvent // S[e1;e2;…]: events that happen inside the source's Subscribe
+	resub int          // kind=sharet, C!k / E<n>!k: subscriber k subscribes a new subscriber from inside its terminal callback; -1 = none
 }
 
 func parseShareEvents(s string) ([]shareEvent, bool) {
@@ -268,10 +283,18 @@ func parseShareEvents(s string) ([]shareEvent, bool) {
 				}
 				inner = in
 			}
-			out = append(out, shareEvent{kind: 'S', inner: inner, arg: 1})
+			out = append(out, shareEvent{kind: 'S', inner: inner, arg: 1, resub: -1})
 			continue
 		}
-		e := shareEvent{kind: t[0]}
+		e := shareEvent{kind: t[0], resub: -1}
+		if bang := strings.IndexByte(t, '!'); bang > 0 && (t[0] == 'C' || t[0] == 'E') {
+			k, err := strconv.Atoi(t[bang+1:])
+			if err != nil {
+				return nil, false
+			}
+			e.resub = k
+			t = t[:bang]
+		}
 		switch t[0] {
 		case 'S', 'C', 'K', 'D':
 			if len(t) != 1 {
@@ -326,6 +349,8 @@ func renderHookList(l []string) string {
 	return joinOrDash(out)
 }
 
+var shareHangs int32
+
 func runShareCase(c *Case) string {
 	pres, err := parsePres(c.get("pre", "-"))
 	evs, ok := parseShareEvents(c.get("ev", "-"))
@@ -375,14 +400,50 @@ func runShareCase(c *Case) string {
 				subs[e.arg].Unsubscribe()
 			}
 		case 'N', 'E', 'C':
-			src.push(e.tok())
+			if e.resub >= 0 && e.resub < len(recs) {
+				r := recs[e.resub]
+				r.mu.Lock()
+				r.onTerm = func() { do(shareEvent{kind: 'S', resub: -1}) }
+				r.mu.Unlock()
+				src.push(e.tok())
+				r.mu.Lock()
+				r.onTerm = nil // the subscriber did not receive this terminal: nothing happens
+				r.mu.Unlock()
+			} else {
+				src.push(e.tok())
+			}
 		}
+	}
+	hung := false
+	if c.get("kind", "share") == "sharet" && atomic.LoadInt32(&shareHangs) >= 3 {
+		return "res " + c.id + " hang(skipped: three earlier cases of this run did not return)"
 	}
 	for _, e := range evs {
 		e := e
-		guarded(&escaped, func() { do(e) })
+		if c.get("kind", "share") == "sharet" {
+			// a re-entrant Subscribe can wait for a lock its own goroutine holds: run the event under a watchdog
+			done := make(chan struct{})
+			go func() {
+				defer close(done)
+				guarded(&escaped, func() { do(e) })
+			}()
+			select {
+			case <-done:
+			case <-time.After(2 * time.Second):
+				hung = true
+				atomic.AddInt32(&shareHangs, 1)
+			}
+			if hung {
+				break
+			}
+		} else {
+			guarded(&escaped, func() { do(e) })
+		}
 		l, t := src.counters()
 		up = append(up, fmt.Sprintf("%d/%d", l, t))
+	}
+	if hung {
+		return "res " + c.id + " hang(an event did not return within 2 s: a Subscribe issued from inside a terminal callback waits for a lock held by its own goroutine)"
 	}
 	traces := make([]string, len(recs))
 	for i, r := range recs {
@@ -684,6 +745,57 @@ func genShare(tier string, seed int64, only string) []*Case {
 			pre = pres[r.Intn(len(pres))]
 		}
 		add("config", allConns[r.Intn(len(allConns))], shareFlagSets[r.Intn(8)], pre, randomEvents(r, "SSUUNNNEC", 4+r.Intn(randLen), 6))
+	}
+	return cases
+}
+
+// kind=sharet: the source's terminal arrives and one of the subscribers subscribes again from inside its terminal
+// callback (what a retry / repeat style consumer of a shared observable does). Only with the reset flag of that
+// terminal set: the proxy then drops the finished generation BEFORE it forwards the terminal
+// (operator_connectable.go:134-152), so the newcomer starts a fresh generation; without the flag the newcomer would
+// join the subject whose broadcast is in progress — a call back into a subject from one of its own callbacks, which
+// the subjects do not support (C10's client convention).
+func genShareTerm(tier string, seed int64, only string) []*Case {
+	r := rand.New(rand.NewSource(seed))
+	var cases []*Case
+	id := 0
+	add := func(conn, flags, pre, ev string) {
+		id++
+		cases = append(cases, newCase(id, "kind", "sharet", "api", "config", "conn", conn, "flags", flags, "pre", pre, "ev", ev))
+	}
+	maxLen := 3
+	if tier == "thorough" {
+		maxLen = 4
+	}
+	prefixes := eventSeqs("SUN", maxLen, 3)
+	tails := []string{"", "N9", "S", "U0", "N9,U1", "S,N9", "N9,C", "U2,N9"}
+	for _, conn := range []string{"publish", "replay1", "behavior"} {
+		for _, term := range []string{"C", "E7"} {
+			need := term[:1]
+			for _, fl := range shareFlagSets {
+				if !strings.Contains(fl, need) {
+					continue
+				}
+				for _, pre := range prefixes {
+					n := strings.Count(pre, "S")
+					if n == 0 {
+						continue
+					}
+					for k := 0; k < n; k++ {
+						for _, tail := range tails {
+							if r.Intn(3) != 0 && tier != "thorough" {
+								continue
+							}
+							ev := pre + "," + term + "!" + strconv.Itoa(k)
+							if tail != "" {
+								ev += "," + tail
+							}
+							add(conn, fl, "-", ev)
+						}
+					}
+				}
+			}
+		}
 	}
 	return cases
 }
